@@ -201,6 +201,27 @@ def crc_fold(value, byte_values):
     return mk_int(z3.ZeroExt(W - 16, t))
 
 
+_CRC_PREFIX = z3.Function("crc_prefix", z3.ArraySort(z3.BitVecSort(W), z3.BitVecSort(8)), z3.BitVecSort(W), z3.BitVecSort(W),
+                           z3.BitVecSort(16))
+
+
+def crc_prefix(lb, k):
+    """CRC (initial value 0) of the first k bytes of the symbolic-length byte string lb, as an uninterpreted function of
+    (array, offset, k).  Its defining recursion crc_prefix(k + m) = fold(crc_prefix(k), bytes k..k+m-1), crc_prefix(0) = 0
+    is instantiated by hand where a proof needs it (crc_prefix_step)."""
+    return mk_int(z3.ZeroExt(W - 16, _CRC_PREFIX(lb.arr, bv(lb.off), bv(k))))
+
+
+def crc_prefix_step(lb, k, m):
+    """the instance  crc_prefix(lb, k + m) == fold(crc_prefix(lb, k), lb[k .. k+m-1])  of the defining recursion (m concrete)"""
+    chunk = [byte_to_int(lb.at(binop("+", k, i))) for i in range(m)]
+    return compare("==", crc_prefix(lb, binop("+", k, m)), crc_fold(crc_prefix(lb, k), chunk))
+
+
+def crc_prefix_zero(lb):
+    return compare("==", crc_prefix(lb, 0), 0)
+
+
 class Models:
     def __init__(self):
         self.ctors = {}
@@ -1399,6 +1420,9 @@ class Models:
         import time as _time
 
         def t_time(interp):
+            if getattr(interp, "frozen_time", False):
+                # contract assumption "the peer reacts before any deadline": the clock does not advance
+                return V.STime(z3.BitVecVal(0, W)) if interp.ctx.mode == "sym" else 0.0
             # time as integer ticks, monotone along a path (real-time behaviour is not decided)
             last = interp.ctx.__dict__.get("_now")
             now = interp.ctx.fresh_int("now", 0 if last is None else None, 1 << 60)
